@@ -324,7 +324,6 @@ theorem ghost_branches_unreachable (s : St) (h : Inv s) :
     rw [hA] at hlen; simp at hlen
     omega
 
-set_option maxHeartbeats 1000000 in
 /-- a pending inserting `base` store of the owner belongs to put just before its unlock, targets the
     slot below the logical base as the owner sees it (`lb + sh`: `sh ≠ 0` only while the shift entry
     of a re-centring is still buffered in front of it), and the slot store it is ordered after
@@ -342,8 +341,7 @@ theorem owner_baseI (s : St) (h : Inv s) (v : Int) (e : Elem) (hm : Sto.baseI v 
       · rw [h1] at hm ⊢; simp at hm; obtain ⟨rfl, rfl⟩ := hm; simp [viewPtr, hl]
       · rw [h1] at hm ⊢; simp at hm; obtain ⟨rfl, rfl⟩ := hm; simp [viewPtr, hl, h2]
       · rw [h1] at hm; simp at hm
-  all_goals (exfalso; cases h; simp only [hpc, ownerLocked, carry, resetting, ownerFlight] at *)
-  all_goals tso_absurd
+  all_goals tso_absurd_core h hpc
 
 /-- the same for a passer: its pending inserting `base` store belongs to trypass just before its unlock -/
 theorem thief_baseI (s : St) (h : Inv s) (p : Pid) (v : Int) (e : Elem) (hm : Sto.baseI v e ∈ s.bufT p) :
